@@ -31,6 +31,10 @@ pub trait BiconjugateGradientSolver<T: RealNumber, M: Matrix<T>> {
         }
 
         let bnrm = b.norm(T::two());
+        if r.norm(T::two()) == T::zero() {
+            // the starting point already solves the system; iterating would divide 0 by 0
+            return Ok(T::zero());
+        }
         self.solve_preconditioner(a, &r, &mut z);
 
         let mut p = M::zeros(n, 1);
